@@ -1,4 +1,5 @@
 import ESV.Comp.Front5
+import ESV.SsbScript.Closed
 /-
 C03 — compiled output is a closed, uniquely addressed op list.
 
@@ -158,6 +159,67 @@ theorem compile_closed_counterexample : ¬ CompileClosedUnguarded := by
   have := h exUserJump _ exUserJump_compiles
   revert this
   decide
+
+/-! ### SsbScript -/
+
+open ESV.SsbScript in
+theorem allSome_length {α : Type} : ∀ (l : List (Option α)) (l' : List α), allSome l = some l' → l'.length = l.length := by
+  intro l
+  induction l with
+  | nil => intro l' h; simp only [allSome, Option.some.injEq] at h; subst h; rfl
+  | cons a r ih =>
+    intro l' h
+    cases a with
+    | none => simp [allSome] at h
+    | some a =>
+      simp only [allSome, Option.map_eq_some_iff] at h
+      obtain ⟨r', hr, rfl⟩ := h
+      simp [ih r' hr]
+
+/-- **C03 for the SsbScript compiler model** (`ESV.SsbScript.compile`, the model of C07), all statement ASTs: whenever
+compilation succeeds the result is closed — provided every op named like a jump-carrying op is written with a jump
+marker as last argument (`MarkersLast`) and no routine id is negative or defined twice (`IdsFresh`); both guards are
+decidable and needed (`ssbscript_marker_counterexample`, `ssbscript_repeated_id_counterexample`). -/
+theorem ssbscript_compile_closed (ast : List SsbScript.SRoutine) (x : RoutineSet)
+    (hm : SsbScript.Cl.MarkersLast ast) (hi : SsbScript.Cl.IdsFresh ast) (h : SsbScript.compile ast = .ok x) :
+    SsbScript.Cl.ClosedTables x.infos.length x.coros.length x.ops := by
+  unfold SsbScript.compile at h
+  cases hc : SsbScript.compileRaw ast with
+  | error e => rw [hc] at h; cases h
+  | ok o =>
+    rw [hc] at h
+    simp only [SsbScript.CompileOut.toSet] at h
+    cases ha : SsbScript.allSome o.infos with
+    | none => rw [ha] at h; cases h
+    | some infos =>
+      rw [ha] at h
+      simp only [Except.ok.injEq] at h
+      subst h
+      have := SsbScript.Cl.compileRaw_closed ast o hm hi hc
+      simpa [allSome_length _ _ ha] using this
+
+/-- the same for the model with the routine id check of repo commit 418dd8e in front (`_enlarge_routine_info` raises
+unless `0 ≤ id ≤ len(routine_infos)`), which is what the harness compares with the real SsbScript compiler -/
+theorem ssbscript_compile_checked_closed (ast : List SsbScript.SRoutine) (c : SsbScript.CompileOut)
+    (hm : SsbScript.Cl.MarkersLast ast) (hi : SsbScript.Cl.IdsFresh ast) (h : SsbScript.Cl.compileRawChecked ast = .ok c) :
+    SsbScript.Cl.ClosedTables c.infos.length c.coros.length c.ops :=
+  SsbScript.Cl.compileRawChecked_closed ast c hm hi h
+
+/-- SsbScript `def 0 { Jump(7); }`: the integer is copied, the result is not closed -/
+theorem ssbscript_marker_counterexample :
+    ∃ x, SsbScript.compile [⟨.simple 0, some [.op "Jump" [.param (.int 7)]]⟩] = .ok x ∧
+      ¬ SsbScript.Cl.ClosedTables x.infos.length x.coros.length x.ops :=
+  ⟨⟨[⟨.generic, 0, none⟩], [[⟨0, "Jump", [.int 7]⟩]], [none]⟩, by decide, by decide⟩
+
+/-- SsbScript `def 0 { @a; foo(); } def 0 { Jump(@a); }`: the second definition replaces the ops of routine 0, label `a`
+keeps the offset of the vanished `foo` -/
+theorem ssbscript_repeated_id_counterexample :
+    ∃ x, SsbScript.compile [⟨.simple 0, some [.label "a", .op "foo" []]⟩, ⟨.simple 0, some [.op "Jump" [.jump "a"]]⟩] = .ok x ∧
+      ¬ SsbScript.Cl.ClosedTables x.infos.length x.coros.length x.ops :=
+  ⟨⟨[⟨.generic, 0, none⟩], [[⟨1, "Jump", [.int 0]⟩]], [none]⟩, by decide, by decide⟩
+
+example : SsbScript.Cl.MarkersLast [⟨.simple 1, some [.op "Jump" [.jump "a"]]⟩, ⟨.simple 0, some [.label "a", .op "foo" []]⟩] ∧
+    SsbScript.Cl.IdsFresh [⟨.simple 1, some [.op "Jump" [.jump "a"]]⟩, ⟨.simple 0, some [.label "a", .op "foo" []]⟩] := by decide
 
 /-! ### non-vacuity -/
 
